@@ -6,6 +6,7 @@ oracle (real code only): one feature per feature line, in input order, same colu
 attributes; printed form byte-identical (keep_order=True) for files written in one consistent dialect; same content
 after close + reopen; re-importing the printed features gives an equivalent database.
 """
+import gzip
 import os
 
 import common
@@ -20,9 +21,14 @@ TRUSTED = ["simplejson round trip of the stored attributes/extra (C17)", "sqlite
 LEANCHECKER_MODULES = ["GffProofs.Props.C01"]
 
 
-def make_file(r, n):
+NONASCII = ["é", "ü", "β", "中", "Ω1", "ñ", "\U0001F600"]       # 2-, 3- and 4-byte UTF-8 sequences
+
+
+def make_file(r, n, nonascii=False):
     """n line specs sharing one dialect (separator, trailing semicolon, style, quoting, repeated keys); attribute keys
-    follow one global order; includes flags, percent-escapes, '.' coordinates, extra columns"""
+    follow one global order; includes flags, percent-escapes, '.' coordinates, extra columns.  `nonascii`: at least
+    one line carries characters outside ASCII - in a fixed column (seqid / source / featuretype), in attribute values
+    and in an extra column"""
     base = gen_spec.rand_spec(r, valid=True)
     style, quoted, sep, tr, rep = base.style, base.quoted, base.sep, base.trailing, base.repeated
     fmt = "gtf" if (style == "space" and quoted) else "gff3"
@@ -73,6 +79,21 @@ def make_file(r, n):
                   r.choice([".", "0.5"]), r.choice("+-."), r.choice([".", "0"])]
         s.extra = ["e%d" % q for q in range(nextra)]
         specs.append(s)
+    if nonascii:
+        for i in sorted(set([r.randrange(n)] + [j for j in range(n) if r.random() < 0.3])):
+            s = specs[i]
+            where = r.choice(["col", "value", "value", "both", "extra" if nextra else "col"])
+            if where in ("col", "both"):
+                j = r.choice([0, 0, 1, 2])
+                s.cols[j] = s.cols[j] + r.choice(NONASCII)
+            if where in ("value", "both"):
+                q = r.choice([q for q, (k, v) in enumerate(s.attrs) if v])
+                k, v = s.attrs[q]
+                v = list(v)
+                v[r.randrange(len(v))] += r.choice(NONASCII)
+                s.attrs[q] = (k, v)
+            if where == "extra":
+                s.extra[r.randrange(nextra)] += r.choice(NONASCII)
     return specs, fmt, allkeys
 
 
@@ -85,18 +106,25 @@ def feature_obs(f):
 CFG = dbside.Cfg(strategy="create_unique", keep_order=True, disG=True, disT=True)
 
 
-def mk_case(lines, specs, fmt, cl, mem, reimport_features):
+def mk_case(lines, specs, fmt, cl, mem, reimport_features, form="path"):
     """a self-contained case: the feature lines of the file (a '##gff-version 3' line is written first), the line
     specification each was rendered from, the file extension, checklines, the kind of database, whether the
-    re-import of the Feature objects is part of the case"""
+    re-import of the Feature objects is part of the case, and how the file is handed to create_db: "path" (the plain
+    file) or "gz" (a gzip file '<name>.gz' holding the same bytes)"""
     return {"scenario": "file", "input": list(lines), "records": [s.as_dict() for s in specs], "parallel": ["records"],
             "config": CFG.to_json(), "ext": "gtf" if fmt == "gtf" else "gff3", "checklines": cl,
-            "dbfn": "memory" if mem else "file", "reimport_features": reimport_features}
+            "dbfn": "memory" if mem else "file", "reimport_features": reimport_features, "form": form}
 
 
 def import_file(ctx, case, dbname):
     cfg = dbside.Cfg.from_json(case["config"])
     path = dbside.write_lines(os.path.join(ctx.scratch, "c01." + case["ext"]), ["##gff-version 3"] + list(case["input"]))
+    if case.get("form", "path") == "gz":
+        with open(path, "rb") as fh:
+            raw = fh.read()
+        path += ".gz"
+        with gzip.open(path, "wb") as fh:
+            fh.write(raw)
     dbfn = ":memory:" if case["dbfn"] == "memory" else os.path.join(ctx.scratch, dbname)
     db, rep = dbside.py_create(path, cfg, dbfn=dbfn, checklines=case["checklines"])
     return db, rep, cfg, dbfn
@@ -218,7 +246,9 @@ def run(ctx):
     res = common.Result("C01")
     r = ctx.rng("c01")
     res.rule = ("files of 0-30 lines written in one dialect (all separators / trailing / styles / quoting / repeated keys; "
-                "flags, percent-escapes, '.' coordinates, extra columns), line counts below/at/above checklines, file and "
+                "flags, percent-escapes, '.' coordinates, extra columns, characters outside ASCII in columns, values and "
+                "extra columns), handed over as a plain path or as a gzip path (same bytes), line counts below/at/above "
+                "checklines, file and "
                 ":memory: databases, merge_strategy create_unique, keep_order=True; the repository's data files. The oracle "
                 "judges byte identity only for files in the documented single-dialect domain: (i) the inspection window "
                 "votes the file's dialect, (ii) each line's key order agrees with the voted first-seen order. "
@@ -227,18 +257,23 @@ def run(ctx):
     nfiles = 120 if not ctx.thorough else 1200
     for fi in range(nfiles):
         n = r.choice([1, 2, 3, 5, 9, 10, 11, 12, 13, 20, 30])
-        specs, fmt, allkeys = make_file(r, n)
+        # the file goes to create_db as a plain path or as a gzip path holding the same bytes; files with characters
+        # outside ASCII in columns / values / extra columns in both forms (most of the gzip ones)
+        form = "gz" if r.random() < 0.4 else "path"
+        nonascii = r.random() < (0.8 if form == "gz" else 0.3)
+        specs, fmt, allkeys = make_file(r, n, nonascii)
+        res.count("form_%s%s" % (form, "_nonascii" if nonascii else ""))
         rows = pc.run_specs(ctx, specs)
         lines = [(rows[j]["line"] if rows and rows[j] else pc.py_wf_render(s)) for j, s in enumerate(specs)]
         cl = r.choice([10, 10, 0, 1, n - 1, n, n + 2, 3])
         cl = max(cl, 0)
         mem = r.random() < 0.5
-        case = mk_case(lines, specs, fmt, cl, mem, fi % 2 == 0)
+        case = mk_case(lines, specs, fmt, cl, mem, fi % 2 == 0, form)
         db, rep, cfg, dbfn = import_file(ctx, case, "c01_%d.db" % fi)
         res.evaluations += 1
-        inp = {"lines": lines, "checklines": cl, "dbfn": "memory" if mem else "file"}
+        inp = {"lines": lines, "checklines": cl, "dbfn": "memory" if mem else "file", "form": form}
         ccase = {"scenario": "file", "input": lines, "checklines": cl, "dbfn": inp["dbfn"], "ext": case["ext"],
-                 "config": case["config"]}
+                 "config": case["config"], "form": form}
         c1, e1, t1 = corr_commands(db, rep, ["##gff-version 3"] + lines, cfg, cl, "")
         cmds += c1[:1]; exp += e1[:1]; tags += [(t, ccase) for t in t1[:1]]
         st = check_stored(case, specs, db, rep, res)
